@@ -293,14 +293,19 @@ impl<'a> Item<'a> {
                         format!("stream \"{}\" read sizes {:?}: got {:?}, in-memory find_iter {:?}", shows(stream), sched_full, got, exp),
                     );
                 }
+                // Not judged here (they are not part of C07's statement; a
+                // defect behind them shows up as a wrong match list above or
+                // belongs to C18 / C19): the iterator ending before the reader
+                // reported end of stream, a read with an empty buffer, and the
+                // work counters. They are only counted.
                 if !rdr.eof_reported {
-                    self.viol(rep, "stream-early-eof", self.case("find", stream, &sched_full), format!("stream \"{}\" read sizes {:?}: iterator ended before the reader reported end of stream", shows(stream), sched_full));
+                    st.add("note_iterator_ended_before_reader_eof", 1);
                 }
                 if rdr.empty_buf_call {
-                    self.viol(rep, "stream-empty-read-buffer", self.case("find", stream, &sched_full), format!("stream \"{}\" read sizes {:?}: reader was handed an empty buffer (a full buffer would be mistaken for end of stream)", shows(stream), sched_full));
+                    st.add("note_read_with_empty_buffer", 1);
                 }
                 if c.non_monotone != 0 || c.fail_excess != 0 {
-                    self.viol(rep, "stream-work", self.case("find", stream, &sched_full), format!("stream \"{}\" read sizes {:?}: work counters {:?}", shows(stream), sched_full, c));
+                    st.add("note_work_counters_nonzero", 1);
                 }
                 for &(_, s, e) in exp {
                     if ex.cuts.iter().any(|&cut| s < cut && cut < e) {
